@@ -239,6 +239,45 @@ def millis_combine(fn_node):
     raise GenError("aws_date_time_as_millis: the return expression is not `convert(...) + (uint64_t)dt->milliseconds`")
 
 
+def time_glue(repo, inc):
+    """source/posix/time.c: aws_gmtime / aws_localtime / aws_timegm must be exactly one call of the re-entrant libc
+    function on the caller's own buffers (`gmtime_r(&time, t)`, `localtime_r(&time, t)`, `return timegm(t)`);
+    returns the callee names"""
+    src = os.path.join(repo, "source", "posix", "time.c")
+    tu = f'#include "{src}"\n'
+    out = {}
+    for fname, nargs in (("aws_gmtime", 2), ("aws_localtime", 2), ("aws_timegm", 1)):
+        d = cfun.dump_functions(tu, fname, inc)
+        if fname not in d:
+            raise GenError(f"{fname} not found in source/posix/time.c")
+        body = _first(d[fname], lambda x: x.get("kind") == "CompoundStmt")
+        stmts = [c for c in (body or {}).get("inner", []) if isinstance(c, dict)]
+        if len(stmts) != 1:
+            raise GenError(f"{fname}: the body is not a single libc call (found {len(stmts)} statements)")
+        st = stmts[0]
+        if fname == "aws_timegm":
+            if st.get("kind") != "ReturnStmt":
+                raise GenError("aws_timegm: the body is not `return timegm(t);`")
+            st = _strip(st["inner"][0])
+        else:
+            st = _strip(st)
+        if st.get("kind") != "CallExpr" or len(st["inner"]) != nargs + 1:
+            raise GenError(f"{fname}: the body is not a single call with {nargs} argument(s)")
+        callee = _ref(_strip(st["inner"][0]))
+        params = [c.get("name") for c in d[fname].get("inner", []) if c.get("kind") == "ParmVarDecl"]
+        args = st["inner"][1:]
+        if nargs == 2:
+            a0 = _strip(args[0])
+            ok = a0.get("kind") == "UnaryOperator" and a0.get("opcode") == "&" and _ref(_strip(a0["inner"][0])) == params[0] and \
+                _ref(_strip(args[1])) == params[1]
+        else:
+            ok = _ref(_strip(args[0])) == params[0]
+        if not ok:
+            raise GenError(f"{fname}: {callee} is not called on the caller's own arguments")
+        out[fname] = callee
+    return out
+
+
 def generate(repo, cfg_inc):
     inc = log_gen._includes(repo, cfg_inc)
     src = os.path.join(repo, "source", "date_time.c")
@@ -278,6 +317,7 @@ def generate(repo, cfg_inc):
             raise GenError(f"{f}: aws_timestamp_convert calls changed shape: {calls[f]}")
     combine = nanos_combine(fns["aws_date_time_as_nanos"])
     millis_combine(fns["aws_date_time_as_millis"])
+    glue = time_glue(repo, inc)
     fmt_l = dict(FORMAT_VARS)
     out = ["/-! GENERATED by gen/date_gen.py from /repo's source/date_time.c and headers — do not edit. -/",
            "namespace AwsVerif.Gen.Date", ""]
@@ -315,7 +355,11 @@ def generate(repo, cfg_inc):
     out.append(f"def initMillis : Nat × Nat × Bool := ({ci[1]}, {ci[2]}, {'true' if ci[3] else 'false'})")
     out.append("/-- `aws_date_time_as_nanos` adds its two conversions with `aws_add_u64_saturating` (true) or with a plain, wrapping `+` (false) -/")
     out.append(f"def asNanosSaturatingAdd : Bool := {'true' if combine == 'saturating' else 'false'}")
+    out += ["", "/-! source/posix/time.c: each wrapper is a single call of this libc function on the caller's own buffers -/"]
+    out.append(f'def gmtimeCallee : String := "{glue["aws_gmtime"]}"')
+    out.append(f'def localtimeCallee : String := "{glue["aws_localtime"]}"')
+    out.append(f'def timegmCallee : String := "{glue["aws_timegm"]}"')
     out += ["", "end AwsVerif.Gen.Date", ""]
     meta = dict(consts=consts, fmts={k: v.decode("latin-1") for k, v in fmts.items()}, months=[(s.decode(), n) for s, n in months],
-                zone=zone, reader=rc, tz=tzsize, nanos_combine=combine)
+                zone=zone, reader=rc, tz=tzsize, nanos_combine=combine, glue=glue)
     return "\n".join(out), meta
